@@ -19,6 +19,9 @@ CLAIMED = {
  "C06": ("model_checking", "5 C06",
    "Ref.tla stores one gradient per memory owner; a view's gradient is the view's index map applied to it. Availability, value and memory sharing of every view gradient (gshare clause) are compared on TLC-enumerated and random programs in which base and views are consumed in varying orders.",
    "explicit TLA+ reference checked with TLC; behaviour replay + trace validation incl. gradient sharing matrices"),
+ "C08": ("model_checking", "5 C08",
+   "MemGuard.tla transcribes lock_arr_writeability / unique_arrs_and_bases / _release_lock_on_arr_writeability and the locking steps of Tensor._op together with CPython reference counting (which decides when an operation's finaliser runs). TLC checks (S) arrays of live guarded ops are read-only and (R) flags return to their original value once no live graph refers to an array, exhaustively over every order of drops, clear_graph calls and failing operations (1.5M states at the quick bound). Every behaviour of bounded length and seeded long simulations are replayed with real arrays, tensors, ops and dels, comparing every writeable flag (and, as drift indicator, the lock-table sizes) after every statement.",
+   "explicit TLA+ mechanism model checked exhaustively with TLC; all enumerated behaviours and simulated behaviours replayed on the implementation"),
  "C15": ("model_checking", "5 C15",
    "Context.tla transcribes ContextTracker (per-manager depth counter and depth->saved dict, enter/exit/decorator, turn_memory_guarding_*). TLC checks ScopedRestore / EnterSets / DepthConsistent / DefaultOutside exhaustively to nesting depth 7 (~670k states); every behaviour of bounded length is replayed with real with-blocks, decorators and raising bodies, comparing both switches after every event; programs executed inside random nestings are validated against Ref.tla (untracked ops record nothing, keep gradients, write in place; backward is a no-op).",
    "explicit TLA+ mechanism model checked exhaustively with TLC; every enumerated behaviour replayed on the implementation; trace validation of programs run inside scopes"),
